@@ -30,4 +30,9 @@ CLAIMED = {
   text="All ordered pairs of the enumerated universe per ecosystem are compared on the real code against the reference; the strict semver parser is run on every string up to the length bound against the official grammar.",
   note="Trusted base: engine/ref/semver.go, replayed against node-semver 7.6.2 (thorough tier); golang uses x/mod/semver v0.22.0 directly. NuGet pairs differing only by identifier case are not claimed.",
   ref="DESIGN.md 4 (C08), Appendix A.1"),
+ "C09": dict(
+  technique="bounded-exhaustive enumeration of PEP 440 strings (product of present/absent epoch, release, pre, post, dev, local segments and spelling variants) x all ordered pairs on the real Compare against a Go port of packaging's _cmpkey, the port replayed against packaging 26.3",
+  text="All ordered pairs of the enumerated grammar product are compared on the real code against the PEP 440 key order; the reference is re-validated against the installed 'packaging' on the same universe (thorough tier).",
+  note="Trusted base: engine/ref/pep440.go and packaging 26.3. Local-label disagreements are a listed known finding (test-pinned) and are attributed only when the reference decided by the local label and Compare returned 0.",
+  ref="DESIGN.md 4 (C09), Appendix A.2"),
 }
